@@ -170,8 +170,8 @@ def mod(p):
     sbc, tbc, off, prec, rnd, ss, ts = p['sbc'], p['tbc'], p['off'], p['prec'], p['rnd'], p['ssign'], p['tsign']
     top = max(sbc + max(off, 0), tbc + max(-off, 0)) + 2
     ob = Ob(wbump(p, top + 60), timeout_s=p.get('_t', 60), mul_precise_bits=0)
-    t = ob.mpf('t', tbc, sign=ts)
-    s = ob.mpf('s', sbc, exp=add(t[2], off), sign=ss)
+    t = ob.mpf('t', tbc, sign=ts, E=p.get('E', E30))
+    s = ob.mpf('s', sbc, exp=add(t[2], off), sign=ss) if sbc else FZERO       # sbc == 0: exact zero dividend
     L = libmpf()
     entry = p.get('entry', 'libmp')
     if entry == 'libmp':
@@ -181,7 +181,9 @@ def mod(p):
         from checks.fam_arith import _api_binary
         outs, unwrap = _api_binary(ob, entry, '%', s, t, prec, rnd)
     sm, tm = zt(s[1]), zt(t[1])
-    if off >= 0:
+    if not sbc:
+        S, T, base = B(0), tm, zt(t[2])
+    elif off >= 0:
         S, T, base = sm << off, tm, zt(t[2])
     else:
         S, T, base = sm, tm << (-off), zt(s[2])
@@ -207,14 +209,14 @@ def mod(p):
 def mod_concrete(p, m):
     L = libmpf()
     t = mk_tuple(m, 't', p['tbc'], sign=p['tsign'])
-    s = mk_tuple(m, 's', p['sbc'], exp=t[2] + p['off'], sign=p['ssign'])
+    s = mk_tuple(m, 's', p['sbc'], exp=t[2] + p['off'], sign=p['ssign']) if p['sbc'] else FZERO
     if p.get('entry', 'libmp') == 'libmp':
         r = L.mpf_mod(s, t, p['prec'], p['rnd'])
     else:
         from checks.fam_arith import _api_binary_concrete
         r = _api_binary_concrete(p['entry'], '%', s, t, p['prec'], p['rnd'])
-    E0 = min(s[2], t[2])
-    x, y = O.frac_of(s, E0), O.frac_of(t, E0)
+    E0 = min(s[2], t[2]) if p['sbc'] else t[2]
+    x, y = (O.frac_of(s, E0) if p['sbc'] else Fraction(0)), O.frac_of(t, E0)
     want = x - y * math.floor(x / y)
     return O.check_rounded(r, want, p['prec'], p['rnd'], shift=E0)
 
